@@ -3,6 +3,7 @@ import re
 from .. import sexp, parsegen, spangen, lexsim
 from .parsebase import ParseProp
 from .C04 import fields, final_config, FILTERS
+from .gbase import GProp, pfields
 
 ALPHA = ['a', 'b', 'sp', 'TAB', 'TAB', 'CR', 'LF', 'e2', 'w3', 'z3', 'w4', 'z2', 'comma', 'bang']
 POS = re.compile(r'\b(\d+):(\d+):(\d+)\b')
@@ -17,8 +18,8 @@ class C03(ParseProp):
     rule = ('seeded random texts (<= 30 chars) over ASCII, tab, CR, LF, 2-4 byte, double-width and zero-width chars x every '
             'line ending x tab width 1..16 x every permutation and subset of the lexer builder calls (with_column_metrics, '
             'with_line_ending, with_tab_width, with_filter) x filter on/off x scanners measuring token ends by end_position / position_after_str / position_after_chars_matching x random histories; every position in '
-            'token_span/parse_span/cursor_pos/peek_token_span after every operation, and (grammar cases) every span inside '
-            'values and errors, is compared with the canonical position of its byte offset under the FINAL metrics; '
+            'token_span/parse_span/cursor_pos/peek_token_span after every operation, and - in grammar cases from every combinator family (all line endings, tab 1..16, plain/modal/literal/matching scanners, both builder orders) - every span inside '
+            'returned lexers, values (captures), returned errors and sink entries, is compared with the canonical position of its byte offset under the FINAL metrics; '
             'non-trivial = text with a tab or line break or non-ASCII char and >= 2 builder calls; distinct by case')
     assumptions = ['the harness scanners measure token ends with ColumnMetrics::end_position (plain, counting), with SourceText::position_after_str (literal) or with position_after_chars_matching for whitespace runs (matching); the model measures all of them with end_position']
 
@@ -45,17 +46,47 @@ class C03(ParseProp):
                 ops.append(r.choice(['next', 'next', 'next', 'peek', 'sublex', 'emptyf', ['advupto', 'Comma'], ['clone', 'next', 'peek']]))
             n += 1
             out.append(parsegen.lex_case('c%d' % n, r.choice(['plain', 'counting', 'literal', 'literal', 'matching']), t, build, ops + ['drain']))
+        # positions produced while PARSING: parse spans of returned lexers, captured spans, spans of returned and reported errors,
+        # from every grammar family, under every line ending, tab widths 1..16, all scanners, both builder orders
+        from . import C02 as c02mod, C07 as c07mod, C08 as c08mod, C10 as c10mod, C12 as c12mod, C14 as c14mod
+        palpha = ['a', 'a', 'b', 'c', 'sp', 'sp', 'TAB', 'TAB', 'CR', 'LF', 'e2', 'w3', 'z3', 'w4', 'z2', 'comma', 'comma', 'semi', 'lp', 'rp', 'lk', 'rk', 'bang']
+        for i in range(700 if tier == 'quick' else 9000):
+            k = r.below(9)
+            if k == 0: g = parsegen.gen_c06(r, 2 + r.below(8))
+            elif k == 1: g = c07mod.gen_rep(r, 1 + r.below(3))
+            elif k == 2: g = [r.choice(c10mod.VARIANTS), ['LP', 'LK'], r.choice([['one', 'A'], c02mod.gen_list(r), 'empty', ['spanned', ['repeat', 0, 'inf', ['any', 'A', 'B', 'Comma']]]]), ['RP', 'RK'], r.choice([[], ['Semi']])]
+            elif k == 3: g = c02mod.gen_list(r)
+            elif k == 4: g = [r.choice(c12mod.RCOMB), c12mod.gen_rs(r), parsegen.gen_item(r, 2)]
+            elif k in (5, 6): g = ['both', ['maybe', ['one', 'A']], [r.choice(['text', 'spanned']), c14mod.gen_wrapped(r)]]
+            elif k == 7: g = c08mod.gen_committed(r)
+            else: g = ['both', ['repeat', 0, 'inf', ['spanned', ['any', 'A', 'B', 'U']]], ['either', 'eot', ['one', 'C']]]
+            t = spangen.random_text(r, palpha, 14 if tier == 'quick' else 24)
+            n += 1
+            out.append(parsegen.parse_case('c%d' % n, t, g, le=r.choice(['lf', 'cr', 'crlf']), tab=1 + r.below(16),
+                                           scanner=r.choice(['plain', 'plain', 'modal', 'literal', 'matching']),
+                                           flt=r.choice([['drop', 'Ws'], ['drop', 'Ws'], 'none', ['drop', 'Ws', 'U']]),
+                                           sink=r.below(2), pushed=[1] if r.chance(1, 5) else [], order=r.choice(['mf', 'mf', 'fm'])))
         return out
 
+    vary_order = False          # the parse-cases choose their builder order themselves
+
     def nontrivial(self, ct, it):
+        if ct[0] == 'parse-case':
+            c = pfields(ct)
+            return any(s in c['text'] for s in ('TAB', 'CR', 'LF', 'e2', 'w3', 'z3', 'w4', 'z2')) and ('spanned' in sexp.dump(it) or '(err' in sexp.dump(it) or '(sink (' in sexp.dump(it))
         c = fields(ct)
         return len(c['build']) >= 2 and any(s in c['text'] for s in ('TAB', 'CR', 'LF', 'e2', 'w3', 'z3', 'w4', 'z2'))
 
     def oracle(self, ct, it):
-        if ct[0] != 'lex-case':
+        if ct[0] == 'parse-case':
+            c = pfields(ct)
+            le, tab = c['le'], c['tab']
+            c = {'text': c['text'], 'build': ['(parse-case: metrics %s %s)' % (le, tab)]}
+        elif ct[0] == 'lex-case':
+            c = fields(ct)
+            le, tab, flt = final_config(c['build'])
+        else:
             return []
-        c = fields(ct)
-        le, tab, flt = final_config(c['build'])
         canon = byte_canon(c['text'], le, tab)
         fails = []
         for ei, e in enumerate(it[1:], 1):
@@ -71,6 +102,9 @@ class C03(ParseProp):
         return fails
 
     def shrink(self, ct):
+        if ct[0] == 'parse-case':
+            yield from GProp.shrink(self, ct)
+            return
         c = fields(ct)
         t, ops = c['text'], c['ops']
         for i in range(len(c['build'])):
